@@ -442,7 +442,9 @@ def check_seq(case, ctx: Ctx):
                 # zero where the extended call shows output
                 n_in = int(plain.channel_samples[n].duration) - r_
                 tail_a, tail_b = a[max(n_in, 0):], b[max(n_in, 0):]
-                if tail_a.size and float(np.max(np.abs(tail_a))) == 0.0 and float(np.max(np.abs(tail_b))) > 0.01 + 0.02 * pk:
+                # (sequences at least two rise times long: below that the filters see nothing but edges)
+                if n_in >= 2 * r_ and tail_a.size and float(np.max(np.abs(tail_a))) == 0.0 \
+                        and float(np.max(np.abs(tail_b))) > 0.01 + 0.02 * pk:
                     ctx.fail(C, f"modulated_samples_differ_from_extended_sampling:{key}:eom",
                              f"{n}: the {len(tail_a)} samples after the last input sample are identically zero with "
                              f"sample(modulation=True) and reach {float(np.max(np.abs(tail_b))):.4g} with an extended duration")
